@@ -156,12 +156,13 @@ ADDENDA = {
            'C04_record_numbers_swapped_counterexample (`bNR == NR` is refused), C04_ambiguous_key_refused, C04_resolved_key_lists_have_equal_length (one entry per pair, in order: the join well-formedness hypothesis of the rbql.js refinement holds for every parsed query). ',
     'C08': 'JAVASCRIPT PORT: the rbql.js literal scanner is modelled (separateLiteralsJs) and tied on every string of length <= 7 over {\' " \\ a `}; C08_js_literals_reassemble, C08_js_literal_closes_after_escaped_backslash (regression theorem of defect D23, fixed: '
            '`\'a\\\\\' where …` swallowed the next clause), C08_js_literals_extracted, C08_js_literal_contents_opaque(_for_the_parse), C08_js_agrees_with_python_on_common_literals, counterexamples for every side condition and for the real differences (back-ticks, line feeds, triple quotes). ',
-    'C13': 'COMMAND LINE: which dialects `python -m rbql` hands to query_csv is modelled (Model/Cli.lean: cliDialects) and tied to the REAL run_with_python_csv (query_csv replaced by a recorder) for 25 delimiter spellings x {no policy, 5 policies} x {input, csv, tsv}: '
+    'C13': 'ENCODINGS ON THE COMMAND LINE: non-ASCII tables under --encoding utf-8 / latin-1 x PYTHONIOENCODING x {file->file, file->stdout, stdin->stdout}: the bytes written are the query_table result in the requested encoding; LONE-STAR JOIN battery through every entry point. '
+           'COMMAND LINE: which dialects `python -m rbql` hands to query_csv is modelled (Model/Cli.lean: cliDialects) and tied to the REAL run_with_python_csv (query_csv replaced by a recorder) for 25 delimiter spellings x {no policy, 5 policies} x {input, csv, tsv}: '
            'C13_cli_out_format_input (output dialect = input dialect), C13_cli_out_format_named, C13_cli_default_policy, C13_cli_delim_spelling. ',
     'C16': 'SHARED STATE made explicit: machines over module-level state g (steps may READ it); C16_frame_implies_independence: if no step writes g (the frame condition the regenerated footprint supports) every schedule gives the solo results; '
            'C16_shared_write_counterexample / _history_counterexample: a step that records a decision in shared state (the shape of the seeded shared NumHandler) makes results depend on schedule and on history. '
            'FOOTPRINT: the scanner follows aliases, elements of shallow copies, parameters and return values (taint), memoising decorators and function attributes, and also covers the front-end modules '
-           '(C16_frontends_no_shared_writes: rbql_csv / rbql_pandas / rbql_sqlite / rbql_main); histories include FROM queries (input from the registry) and all sequences of <= 3 (4) query_csv calls in which one relative join-table name denotes different files. ',
+           '(C16_frontends_no_shared_writes: rbql_csv / rbql_pandas / rbql_sqlite / rbql_main); histories include FROM queries (input from the registry) and all sequences of <= 3 (4) query_csv calls in which one relative join-table name denotes different files; SHARED OBJECTS: all sequences of <= 2 (3) queries over the same table objects and one registry object. ',
     'C15': 'STDOUT AS A REAL PIPE: query_csv writing to a pipe whose reader is gone (results of 0 / 1 / 20 / 30000 records, so the break happens at the final flush or inside the loop) must return and leave no descriptor it opened behind (/proc/self/fd). ',
     'C14': 'BOM END TO END: query_csv on files through the real decoders of both ports: the BOM warning appears iff the input / join table bytes begin with EF BB BF (utf-8 and latin-1, every policy, with and without header) and the mark never reaches the output. ',
     'C19': 'THE rbql.js ENGINE IS NOW MODELLED where it differs from the reference (Model/EngineJs.lean: JSON.stringify-keyed Set/Map for DISTINCT, stable_compare over keys+NR then reverse, compare_key_arrays of decoded group keys, JSON text of multi-column join keys, TopWriter ignoring its sub-writer); '
